@@ -81,8 +81,8 @@ func TestL1NoiseReadSweep(t *testing.T) {
 								L = resolve([]int{s1, s2, s3}[step], frames[fi]-fo)
 							}
 							trace = append(trace, L)
-							n, err := b.Read(arena[:L:L])
-							if err != nil && err != io.EOF || n < 0 || n > L || got+n > len(data) {
+							n, err := guardedRead(b, arena[:L:L])
+							if err != nil || n < 0 || n > L || got+n > len(data) {
 								t.Fatalf("P=(%d,%d) buffers %v: Read = %d, %v at offset %d of %d", pr.p1, pr.p2, trace, n, err, got, len(data))
 							}
 							if string(arena[:n]) != string(data[got:got+n]) {
@@ -120,4 +120,15 @@ func TestL1NoiseReadSweep(t *testing.T) {
 		})
 	}
 	stats.Exhaustive(name)
+}
+
+// guardedRead turns a panic inside Read (e.g. slicing beyond the caller's buffer) into
+// an error so that the failing combination is reported.
+func guardedRead(r io.Reader, p []byte) (n int, err error) {
+	defer func() {
+		if x := recover(); x != nil {
+			n, err = 0, fmt.Errorf("Read panicked: %v", x)
+		}
+	}()
+	return r.Read(p)
 }
